@@ -281,7 +281,11 @@ static int rtosc_print_range(const rtosc_arg_val_t* arg,
 
     // loop over all args of the range
     char* last_sep = buffer - 1;
-    int args_written_this_line = (cols_used) ? 1 : 0;
+    // the line can only be broken in front of the first value if something
+    // has been written on this line and a blank stands there (not the '['
+    // of an array, and not the byte in front of the caller's buffer)
+    int args_written_this_line =
+        (*cols_used && isspace((unsigned char)buffer[-1])) ? 1 : 0;
 
     for(int i = start; i < rtosc_arg_rep_num(val); ++i)
     {
@@ -692,7 +696,11 @@ size_t rtosc_print_arg_val(const rtosc_arg_val_t *arg,
         case 'a':
         {
             char* last_sep = buffer - 1;
-            int args_written_this_line = (cols_used) ? 1 : 0;
+            // the line can only be broken in front of the '[' if something
+            // has been written on this line and a blank stands there (not
+            // the 'x' of "5x[...]", not the byte in front of the buffer)
+            int args_written_this_line =
+                (*cols_used && isspace((unsigned char)buffer[-1])) ? 1 : 0;
             STACKALLOC(rtosc_arg_val_t, args_converted, rtosc_arg_arr_len(val)); // range conversion
 
             COUNT_UP_WRITE('[');
